@@ -30,15 +30,15 @@ type feExpect struct {
 }
 
 type genCase struct {
-	T     string            `json:"t"`
-	Kind  string            `json:"kind"`
-	Expr  *Expr             `json:"expr"`
-	List  []item            `json:"list"`
-	Fe    []feExpect        `json:"fe"`
-	Nil   bool              `json:"nil"`
-	Cc    []call            `json:"cc"`
-	Steps []stepObs         `json:"steps"`
-	Post  []json.RawMessage `json:"post"`
+	T     string     `json:"t"`
+	Kind  string     `json:"kind"`
+	Expr  *Expr      `json:"expr"`
+	List  []item     `json:"list"`
+	Fe    []feExpect `json:"fe"`
+	Nil   bool       `json:"nil"`
+	Cc    []call     `json:"cc"`
+	Steps []stepObs  `json:"steps"`
+	Post  postObs    `json:"post"`
 }
 
 type finding struct {
@@ -56,7 +56,7 @@ type replayStats struct {
 	Cases, Built, Steps, ForEachRuns int
 }
 
-const hangAfter = 60 * time.Second
+const hangAfter = 30 * time.Second
 
 // withWatchdog runs f; when it does not come back the finding is written and the process ends (the goroutine
 // cannot be stopped): the orchestrator reports the hang and that the remaining cases were not executed.
@@ -138,10 +138,8 @@ func judgeCase(ci int, c *genCase, out *vio.Out, st *replayStats) {
 			return
 		}
 	}
-	if w, _ := json.Marshal(c.Post); len(c.Post) > 0 {
-		if g, _ := json.Marshal(o.Post); string(w) != string(g) {
-			emit("drift", "Exhausted", 0, c.Post, o.Post)
-		}
+	if !c.Nil && !c.Post.eq(o.Post) {
+		emit("drift", "Exhausted", 0, c.Post, o.Post)
 	}
 }
 
